@@ -13,10 +13,26 @@ import (
 // database's cache must not be purged after a monitor's initial contents have
 // been populated into it.
 
+// Abstract state: (cache state) x (class of len(db.monitors)).
+//   cache state: Init (untouched in this reconnect), Purged, Populated
+//   len class:   eq1 (exactly one monitor), ne1 (zero or at least two)
+// A state set is a bitset over the six combinations.
 const (
-	stInit      = 1
-	stPopulated = 2
+	csInit = iota
+	csPurged
+	csPopulated
 )
+
+const (
+	lcEq1 = iota
+	lcNe1
+)
+
+func stBit(cs, lc int) int { return 1 << uint(cs*2+lc) }
+
+const stAll = 0x3f
+
+var stEntry = stBit(csInit, lcEq1) | stBit(csInit, lcNe1)
 
 type tsResult struct {
 	exit  int // bitset of exit states
@@ -27,6 +43,7 @@ type tsViolation struct {
 	pos  token.Pos
 	fn   *ssa.Function
 	path string
+	kind string
 }
 
 type typestate struct {
@@ -35,6 +52,8 @@ type typestate struct {
 	populate  map[*types.Func]bool
 	monitors  *types.Var // client.database.monitors
 	databases *types.Var // client.ovsdbClient.databases
+	lastTxn   *types.Var // client.Monitor.LastTransactionID
+	resume    map[ssa.Instruction]bool
 	memo      map[[2]interface{}]*tsResult
 	active    map[[2]interface{}]bool
 	events    int
@@ -56,78 +75,119 @@ func eventOf(ts *typestate, c *ssa.CallCommon) string {
 	return ""
 }
 
-// lenMonitorsRefuted: do the facts at `at` contradict len(db.monitors) >= 2 ?
-func (ts *typestate) lenRefuted(at ssa.Instruction) (bool, string) {
-	for _, f := range factsAt(at.Block()) {
-		c, truth := normFact(f)
-		bo, ok := c.(*ssa.BinOp)
-		if !ok {
-			continue
+// lenCondClasses: for a branch condition comparing len(db.monitors) with a
+// constant, which len classes can make it true / false.
+func (ts *typestate) lenCond(cond ssa.Value) (canTrue, canFalse [2]bool, ok bool) {
+	neg := false
+	for {
+		u, isU := cond.(*ssa.UnOp)
+		if !isU || u.Op != token.NOT {
+			break
 		}
-		l, r, op := bo.X, bo.Y, bo.Op
-		if _, isLen := lenOperand(r); isLen {
-			l, r = r, l
-			switch op {
-			case token.LSS:
-				op = token.GTR
-			case token.LEQ:
-				op = token.GEQ
-			case token.GTR:
-				op = token.LSS
-			case token.GEQ:
-				op = token.LEQ
-			}
-		}
-		lx, isLen := lenOperand(l)
-		if !isLen {
-			continue
-		}
-		k, isC := constInt(r)
-		if !isC {
-			continue
-		}
-		ld, ok := lx.(*ssa.UnOp)
-		if !ok {
-			continue
-		}
-		fa, ok := ld.X.(*ssa.FieldAddr)
-		if !ok || fieldOfAddr(fa) != ts.monitors {
-			continue
-		}
-		if !truth {
-			switch op {
-			case token.EQL:
-				op = token.NEQ
-			case token.NEQ:
-				op = token.EQL
-			case token.LSS:
-				op = token.GEQ
-			case token.LEQ:
-				op = token.GTR
-			case token.GTR:
-				op = token.LEQ
-			case token.GEQ:
-				op = token.LSS
-			}
-		}
-		// does (len op k) exclude every len >= 2 ?
-		refuted := false
+		cond, neg = u.X, !neg
+	}
+	bo, isBo := cond.(*ssa.BinOp)
+	if !isBo {
+		return
+	}
+	l, r, op := bo.X, bo.Y, bo.Op
+	if _, isLen := lenOperand(r); isLen {
+		l, r = r, l
 		switch op {
-		case token.EQL:
-			refuted = k < 2
 		case token.LSS:
-			refuted = k <= 2
+			op = token.GTR
 		case token.LEQ:
-			refuted = k < 2
-		}
-		if refuted {
-			return true, fmt.Sprintf("guard len(monitors) %s %d holds here, impossible once a previous monitor of the same restart loop has populated the cache", op, k)
+			op = token.GEQ
+		case token.GTR:
+			op = token.LSS
+		case token.GEQ:
+			op = token.LEQ
 		}
 	}
-	return false, ""
+	lx, isLen := lenOperand(l)
+	if !isLen || !loadOfField(lx, ts.monitors) {
+		return
+	}
+	k, isC := constInt(r)
+	if !isC {
+		return
+	}
+	eval := func(n int64) bool {
+		var v bool
+		switch op {
+		case token.EQL:
+			v = n == k
+		case token.NEQ:
+			v = n != k
+		case token.LSS:
+			v = n < k
+		case token.LEQ:
+			v = n <= k
+		case token.GTR:
+			v = n > k
+		case token.GEQ:
+			v = n >= k
+		default:
+			return false
+		}
+		return v != neg
+	}
+	switch op {
+	case token.EQL, token.NEQ, token.LSS, token.LEQ, token.GTR, token.GEQ:
+	default:
+		return
+	}
+	samples := [2][]int64{{1}, {0, 2, 3, 1000}}
+	for lc := 0; lc < 2; lc++ {
+		for _, n := range samples[lc] {
+			if eval(n) {
+				canTrue[lc] = true
+			} else {
+				canFalse[lc] = true
+			}
+		}
+	}
+	return canTrue, canFalse, true
 }
 
-// run analyses fn from entry state `entry` (a single state) and returns the exit states.
+// filterEdge restricts a state set to what is feasible on the edge b -> succ.
+func (ts *typestate) filterEdge(st int, b, succ *ssa.BasicBlock) int {
+	if len(b.Instrs) == 0 || len(b.Succs) != 2 || b.Succs[0] == b.Succs[1] {
+		return st
+	}
+	iff, ok := b.Instrs[len(b.Instrs)-1].(*ssa.If)
+	if !ok {
+		return st
+	}
+	truth := b.Succs[0] == succ
+	if canT, canF, isLen := ts.lenCond(iff.Cond); isLen {
+		out := 0
+		for cs := 0; cs < 3; cs++ {
+			for lc := 0; lc < 2; lc++ {
+				if st&stBit(cs, lc) == 0 {
+					continue
+				}
+				if (truth && canT[lc]) || (!truth && canF[lc]) {
+					out |= stBit(cs, lc)
+				}
+			}
+		}
+		return out
+	}
+	// another iteration of the restart loop is impossible with exactly one monitor
+	// once that monitor has been restarted
+	if ex, ok := iff.Cond.(*ssa.Extract); ok && ex.Index == 0 && truth {
+		if nx, ok := ex.Tuple.(*ssa.Next); ok {
+			if rg, ok := nx.Iter.(*ssa.Range); ok && loadOfField(rg.X, ts.monitors) {
+				// the first iteration enters with Init/Purged; Populated means a previous iteration ran
+				return st &^ stBit(csPopulated, lcEq1)
+			}
+		}
+	}
+	return st
+}
+
+// run analyses fn from a single entry state and returns the exit states.
 func (ts *typestate) run(fn *ssa.Function, entry int, depth int, path string) *tsResult {
 	key := [2]interface{}{fn, entry}
 	if r, ok := ts.memo[key]; ok {
@@ -143,19 +203,31 @@ func (ts *typestate) run(fn *ssa.Function, entry int, depth int, path string) *t
 	in[0] = entry
 	work := []*ssa.BasicBlock{fn.Blocks[0]}
 	violSeen := map[token.Pos]bool{}
+	addViol := func(pos token.Pos, kind string) {
+		if !violSeen[pos] {
+			violSeen[pos] = true
+			res.viols = append(res.viols, tsViolation{pos, fn, path, kind})
+		}
+	}
 	for len(work) > 0 {
 		b := work[0]
 		work = work[1:]
 		st := in[b.Index]
 		for _, ins := range b.Instrs {
+			if ts.resume[ins] {
+				ts.events++
+				for lc := 0; lc < 2; lc++ {
+					if st&stBit(csPurged, lc) != 0 || st&stBit(csPopulated, lc) != 0 {
+						addViol(ins.Pos(), "resume")
+					}
+				}
+			}
 			switch x := ins.(type) {
 			case *ssa.Next:
-				// entering an iteration over the set of databases: a different cache
-				if rg, ok := x.Iter.(*ssa.Range); ok {
-					if ld, ok := rg.X.(*ssa.UnOp); ok {
-						if fa, ok := ld.X.(*ssa.FieldAddr); ok && fieldOfAddr(fa) == ts.databases {
-							st = stInit
-						}
+				// entering an iteration over the set of databases: a different cache and monitor set
+				if rg, ok := x.Iter.(*ssa.Range); ok && loadOfField(rg.X, ts.databases) {
+					if st != 0 {
+						st = stEntry
 					}
 				}
 			case ssa.CallInstruction:
@@ -166,37 +238,36 @@ func (ts *typestate) run(fn *ssa.Function, entry int, depth int, path string) *t
 				switch eventOf(ts, cc) {
 				case "P":
 					ts.events++
-					if st&stPopulated != 0 {
-						if ok, _ := ts.lenRefuted(ins); ok {
-							// unreachable in state Populated; Init part continues
-							st &^= stPopulated
-							if st == 0 {
-								st = 0
-							}
-						} else if !violSeen[ins.Pos()] {
-							violSeen[ins.Pos()] = true
-							res.viols = append(res.viols, tsViolation{ins.Pos(), fn, path})
+					out := 0
+					for lc := 0; lc < 2; lc++ {
+						if st&stBit(csPopulated, lc) != 0 {
+							addViol(ins.Pos(), "purge")
+						}
+						if st&(stBit(csInit, lc)|stBit(csPurged, lc)|stBit(csPopulated, lc)) != 0 {
+							out |= stBit(csPurged, lc)
 						}
 					}
-					if st != 0 {
-						st = stInit
-					}
+					st = out
 				case "U":
 					ts.events++
-					if st != 0 {
-						st = stPopulated
+					out := 0
+					for lc := 0; lc < 2; lc++ {
+						if st&(stBit(csInit, lc)|stBit(csPurged, lc)|stBit(csPopulated, lc)) != 0 {
+							out |= stBit(csPopulated, lc)
+						}
 					}
+					st = out
 				default:
 					sc := cc.StaticCallee()
 					if sc == nil || !ts.p.inRepo(sc) || pkgOf(sc) != "client" || sc.Blocks == nil {
 						continue
 					}
 					out := 0
-					for _, s := range []int{stInit, stPopulated} {
-						if st&s == 0 {
+					for bit := 1; bit <= stAll; bit <<= 1 {
+						if st&bit == 0 {
 							continue
 						}
-						r := ts.run(sc, s, depth+1, path+" -> "+sc.Name()+"@"+ts.p.Pos(ins.Pos()))
+						r := ts.run(sc, bit, depth+1, path+" -> "+sc.Name()+"@"+ts.p.Pos(ins.Pos()))
 						out |= r.exit
 						for _, v := range r.viols {
 							if !violSeen[v.pos] {
@@ -205,26 +276,70 @@ func (ts *typestate) run(fn *ssa.Function, entry int, depth int, path string) *t
 							}
 						}
 					}
-					if st != 0 {
-						st = out
-					}
+					st = out
 				}
 			case *ssa.Return:
 				res.exit |= st
 			}
 		}
 		for _, s := range b.Succs {
-			if in[s.Index]|st != in[s.Index] {
-				in[s.Index] |= st
+			fs := ts.filterEdge(st, b, s)
+			if in[s.Index]|fs != in[s.Index] {
+				in[s.Index] |= fs
 				work = append(work, s)
 			}
 		}
 	}
-	if res.exit == 0 {
-		res.exit = entry
-	}
 	ts.memo[key] = res
 	return res
+}
+
+// findResumeSites: loads of Monitor.LastTransactionID that flow into the
+// transaction-id argument of a monitor_cond_since request.
+func (ts *typestate) findResumeSites() {
+	ts.resume = map[ssa.Instruction]bool{}
+	mk := ts.p.Fn("ovsdb", "", "NewMonitorCondSinceArgs")
+	if mk == nil || ts.lastTxn == nil {
+		return
+	}
+	ci := getCallIndex(ts.p)
+	for _, s := range ci.sites[mk] {
+		args := s.instr.(ssa.CallInstruction).Common().Args
+		if len(args) == 0 {
+			continue
+		}
+		var walk func(v ssa.Value, depth int)
+		seen := map[ssa.Value]bool{}
+		walk = func(v ssa.Value, depth int) {
+			if v == nil || seen[v] || depth > 8 {
+				return
+			}
+			seen[v] = true
+			switch x := v.(type) {
+			case *ssa.Phi:
+				for _, e := range x.Edges {
+					walk(e, depth+1)
+				}
+			case *ssa.UnOp:
+				if loadOfField(x, ts.lastTxn) {
+					ts.resume[x] = true
+					return
+				}
+				if al, ok := x.X.(*ssa.Alloc); ok {
+					if refs := al.Referrers(); refs != nil {
+						for _, ref := range *refs {
+							if st, ok := ref.(*ssa.Store); ok && st.Addr == al {
+								walk(st.Val, depth+1)
+							}
+						}
+					}
+				}
+			case *ssa.MakeInterface:
+				walk(x.X, depth+1)
+			}
+		}
+		walk(args[len(args)-1], 0)
+	}
 }
 
 func ruleE7(p *Program, r *Reporter) {
@@ -242,12 +357,30 @@ func ruleE7(p *Program, r *Reporter) {
 	}
 	ts.monitors = p.Field("client", "database", "monitors")
 	ts.databases = p.Field("client", "ovsdbClient", "databases")
+	ts.lastTxn = p.Field("client", "Monitor", "LastTransactionID")
+	ts.findResumeSites()
 	connect := p.Fn("client", "ovsdbClient", "connect")
 	if len(ts.purge) != 1 || len(ts.populate) != 2 || ts.monitors == nil || ts.databases == nil || connect == nil {
 		r.Anchor(id, "cache.TableCache.{Purge,Populate,Populate2}, client.database.monitors, client.(*ovsdbClient).connect")
 		return
 	}
-	res := ts.run(connect, stInit, 0, "connect")
+	if len(ts.resume) == 0 {
+		r.Anchor(id, "no monitor_cond_since request built from Monitor.LastTransactionID")
+	}
+	res := &tsResult{}
+	seenV := map[token.Pos]bool{}
+	for bit := 1; bit <= stAll; bit <<= 1 {
+		if stEntry&bit == 0 {
+			continue
+		}
+		one := ts.run(connect, bit, 0, "connect")
+		for _, v := range one.viols {
+			if !seenV[v.pos] {
+				seenV[v.pos] = true
+				res.viols = append(res.viols, v)
+			}
+		}
+	}
 	if ts.events < 3 {
 		r.Anchor(id, fmt.Sprintf("only %d purge/populate events reachable from connect (expected >= 3)", ts.events))
 	}
@@ -257,6 +390,11 @@ func ruleE7(p *Program, r *Reporter) {
 			fmt.Sprintf("no Purge is reachable after a Populate of the same cache within one reconnect (%d purge/populate events on the paths from connect)", ts.events))
 	}
 	for _, v := range res.viols {
+		if v.kind == "resume" {
+			r.Ob(id, funcName(v.fn), "resume-after-purge", v.pos, false, true,
+				"a monitor_cond_since request resumes from the monitor's last transaction id although the cache has already been purged / repopulated in this reconnect (path "+v.path+"): the server answers with the changes since that id only, so every row that did not change while the client was away is missing")
+			continue
+		}
 		r.Ob(id, funcName(v.fn), "purge-after-populate", v.pos, false, true,
 			"the cache can be purged here after an earlier monitor of the same restart loop has already populated it (path "+v.path+"): with two or more monitors the rows of the monitors restarted first are wiped and never come back")
 	}
